@@ -10,8 +10,9 @@ that is reset by none of  init()/initialize()/clean_up()/UnLoadDatabase/read_inp
 namespace PhreeqcVerif.ResetPolicy
 
 /-- written by an input reader, not reset by the load path, but overwritten or emptied before the value can reach a result.
-    (`run_info` was a candidate and is NOT healed: a RUN_CELLS request of a run that stopped on an error is executed by the
-    test run of the next LoadDatabase — "Beginning of run as cells." in its output; finding key `unreset-run-info`.) -/
+    (`run_info` was a candidate and was NOT healed: a RUN_CELLS request of a run that stopped on an error was executed by the
+    test run of the next LoadDatabase — "Beginning of run as cells." in its output; repaired in /repo 92502aad, clean_up() now
+    assigns a new runner, so it is in the extracted set C.) -/
 def healed : List (String × String) :=
   [("delete_info", "test_db (run by every successful load) feeds a DELETE block; delete_entities then executes and calls delete_info.SetAll(false) on the still empty instance"),
    ("unnumbered_solutions", "tidy_solutions (first call after the load, i.e. test_db) numbers and clears it; rows come only from SOLUTION_SPREAD lines without a number"),
